@@ -180,12 +180,13 @@ Proof.
     destruct (fx2 f && (dflt - 0 <=? 0)); intro H; inversion H; lia.
 Qed.
 
-Theorem check_sound_http : forall f b cachable life dflt dmax o_set o_hit,
+Lemma http_sound_core : forall f b cachable life dflt dmax o_set o_hit,
   0 <= dmax ->
-  let v := check f (CHttp b cachable life dflt dmax o_set o_hit) in
-  v_corr v = true -> v_guards v = [] -> v_prop v = true.
+  http_corr f b cachable life dflt dmax o_set o_hit = true ->
+  guards [(2, cachable && g_F2 f life dflt 0)] = [] ->
+  http_prop life dflt o_set o_hit = true.
 Proof.
-  intros f b cachable life dflt dmax o_set o_hit Hd v Hc Hg. subst v. simpl in *.
+  intros f b cachable life dflt dmax o_set o_hit Hd Hc Hg.
   apply guards1 in Hg. unfold http_corr in Hc. unfold http_prop.
   assert (Hown : match life with Some l => Some l | None => if dflt =? 0 then None else Some dflt end
                  = http_lifetime life dflt 0).
@@ -210,6 +211,16 @@ Proof.
     { intro n2. unfold http_store_decision. destruct cachable; simpl; [|reflexivity].
       unfold http_lifetime in El. destruct life; [discriminate|]. destruct (dflt =? 0); [reflexivity | discriminate]. }
     rewrite !Hn in Hc. destruct o_set; [discriminate | exact Hc].
+Qed.
+
+Theorem check_sound_http : forall f b method_ok vary cachable life dflt dmax o_lookup o_set o_hit,
+  0 <= dmax ->
+  let v := check f (CHttp b method_ok vary cachable life dflt dmax o_lookup o_set o_hit) in
+  v_corr v = true -> v_guards v = [] -> v_prop v = true.
+Proof.
+  intros f b method_ok vary cachable life dflt dmax o_lookup o_set o_hit Hd v Hc Hg. subst v. simpl in *.
+  apply andb_true_iff in Hc as [_ Hc].
+  eapply http_sound_core; eauto.
 Qed.
 
 (** ** [CCache] *)
